@@ -842,6 +842,7 @@ pub fn project_update_in(cfg: &Elem, installed: &[String]) -> Value {
     };
     if cfg.is_delete() {
         wipe(&mut policies);
+        foreign.push("/configuration[delete]".into());
     }
     for c in &cfg.children {
         if c.name != "policy-options" {
@@ -849,7 +850,9 @@ pub fn project_update_in(cfg: &Elem, installed: &[String]) -> Value {
             continue;
         }
         if c.is_delete() {
+            // a write above the level of policy statements (whatever else lives in that container goes with it)
             wipe(&mut policies);
+            foreign.push("/configuration/policy-options[delete]".into());
         }
         for ps in &c.children {
             if ps.name != "policy-statement" {
